@@ -444,6 +444,19 @@ theorem C22_src_loader_keeps_all :
       "a.conf.MemberlistConfig.Keyring = keyring", "return nil"] loadKeyringFile = true ∧
     absent "continue" loadKeyringFile = true := by decide
 
+/-- **the loader reads the WHOLE file** (seeded C22-d read through a 4 KiB LimitReader while the
+writer has no bound): stat, `os.ReadFile`, `json.Unmarshal` of exactly those bytes, and nothing
+else between them and the decode loop — the function has exactly these 31 statements -/
+theorem C22_src_loader_reads_whole_file :
+    hasBlock ["if _, err := os.Stat(keyringFile); err != nil {", "return err", "}",
+      "keyringData, err := os.ReadFile(keyringFile)", "if err != nil {",
+      "return fmt.Errorf(\"Failed to read keyring file: %s\", err)", "}", "keys := make([]string, 0)",
+      "if err := json.Unmarshal(keyringData, &keys); err != nil {",
+      "return fmt.Errorf(\"Failed to decode keyring file: %s\", err)", "}",
+      "keysDecoded := make([][]byte, len(keys))"] loadKeyringFile = true ∧
+    loadKeyringFile.length = 31 ∧
+    once "if err = os.WriteFile(s.config.KeyringFile, encodedKeys, 0600); err != nil {" writeKeyringFile = true := by decide
+
 /-- the accepted key lengths are memberlist's -/
 theorem C22_src_valid_lens : validKeyLens = validLens := by decide
 
